@@ -83,7 +83,7 @@ static int check_tgsw_rows(const TGswSample *g, const TGswKey *gk, uint32_t msg,
         uint32_t ph[PN];
         o_phase(ph, row, &gk->tlwe_key);
         /* draws of one row: N gaussians (body noise), then k*N uniforms (masks) */
-        for (int j = 0; j < PN; j++) CHECK(rng_kind[at + j] == 1 && rng_sigma[at + j] == sigma && rng_mean[at + j] == 0.0, "C07 TGSW row noise: gaussian with exactly the configured sigma");
+        for (int j = 0; j < PN; j++) CHECK(rng_kind[at + j] == 1 && rng_sigma[at + j] == sigma && rng_mean[at + j] == 0.0, "C07 TGSW row noise: gaussian with exactly the configured sigma [sampling idiom]");
         /* message of row p = bl*l+q : msg * Bg^-(q+1) added to coefficient 0 of polynomial bl (a mask polynomial for bl<k, the body for bl=k):
            in phase, -s_bl * msg*h_q for bl<k, msg*h_q for bl=k */
         int bl = p / PL, q = p % PL;
@@ -135,7 +135,7 @@ HARNESS(h_bootstrapping_key) {
     tfhe_createLweBootstrappingKey(bk, lk, gk);
     /* draws: key-switching key first (rows gaussians, then masks), then n TGSW encryptions */
     const int ksrows = PK * PN * KT * ((1 << KBB) - 1);
-    for (int r = 0; r < ksrows; r++) CHECK(rng_kind[r] == 1 && rng_sigma[r] == a_ks, "C07 key-switching rows use the input-key noise level alpha_min");
+    for (int r = 0; r < ksrows; r++) CHECK(rng_kind[r] == 1 && rng_sigma[r] == a_ks, "C07 key-switching rows use the input-key noise level alpha_min [sampling idiom]");
     int at = ksrows + ksrows * PLN;
     for (int i = 0; i < PLN; i++) at = check_tgsw_rows(&bk->bk[i], gk, (uint32_t) lk->key[i], a_bk, at, "");
     CHECK(rng_n == at && !rng_bad_engine, "C07 bootstrapping key generation: no draw beyond the rows, all from the library generator");
